@@ -32,7 +32,17 @@ func genSweep(prop string) func(seed uint64, tier string) *Tape {
 		if rng.IntN(10) == 0 {
 			t.Cfg["fix_big"] = int64(1050 + rng.IntN(500))
 		}
+		// one workload in six contains one bulk big enough to leave the sizes that
+		// per-apply buffers happen to have (hundreds of events in one command)
+		bulkAt, bulkK := -1, 0
+		if rng.IntN(6) == 0 {
+			bulkAt, bulkK = rng.IntN(2), 250+rng.IntN(500)
+		}
 		for i := 0; i < c; i++ {
+			if i == bulkAt {
+				t.Steps = append(t.Steps, Step{Op: "add", K: bulkK, Kind: "raw", Data: "sync"})
+				continue
+			}
 			s := Step{Op: "add", K: 1, Kind: "api", Data: "sync", X: int64([]int{0, 0, 1, 2}[rng.IntN(4)])}
 			if rng.IntN(2) == 0 {
 				s.K = 1 + rng.IntN(6)
@@ -63,7 +73,7 @@ func (s sweepScenario) String() string {
 
 // runWorkload plays the tape's adds on a fresh cluster with one scenario's fault
 // and returns the world for final checks.
-func runSweepScenario(r *Run, sc sweepScenario) {
+func runSweepScenario(r *Run, sc sweepScenario) (fired bool) {
 	n := int(r.Cfg("nodes"))
 	if n < 1 {
 		n = 1
@@ -133,13 +143,17 @@ func runSweepScenario(r *Run, sc sweepScenario) {
 		}
 	}
 	r.cur = len(r.Tape.Steps)
+	fired = sc.kind != "apply" || target.store == nil || target.store.armed == nil || target.opens > 1
+	if !fired {
+		target.store.armed = nil // the workload has fewer store writes than that
+	}
 	if sc.kind == "transfer" && n > 1 {
 		ensureLeader()
 		l := e.nodes[e.leader]
 		for e.applyOne(l) {
 		}
 		if !e.takeSnapshot(l, 0) {
-			return // nothing to transfer in this workload
+			return true // nothing to transfer in this workload
 		}
 		e.startNode(target)
 		res := e.replicate(target, 64, sc.point, sc.a)
@@ -175,6 +189,7 @@ func runSweepScenario(r *Run, sc sweepScenario) {
 	w.checkAgreement("recovered-state")
 	r.Count("sweep.scenarios")
 	r.Distinct("scenario:" + sc.String() + ":" + r.Tape.stepsKey())
+	return fired
 }
 
 // checkAckedVerifiable: every snapshot acknowledged to a client has a verifying
@@ -238,6 +253,25 @@ func execC07(r *Run) {
 	for _, sc := range plan {
 		sc := sc
 		r.Guard(func() { runSweepScenario(r, sc) })
+	}
+	// the plan has one store write per command; if an apply writes more than
+	// once there are further crash points: go on until a fault no longer fires
+	c := 0
+	for _, s := range r.Tape.Steps {
+		if s.Op == "add" {
+			c++
+		}
+	}
+	for _, p := range []string{"mutate.before", "mutate.after"} {
+		for a := c + 1; a <= c+12; a++ {
+			fired := false
+			sc := sweepScenario{kind: "apply", a: a, point: p}
+			r.Guard(func() { fired = runSweepScenario(r, sc) })
+			if !fired {
+				break
+			}
+			r.Count("probe.extra_store_write_crash_points")
+		}
 	}
 	r.Guard(func() { bigStopScenario(r, "crash") })
 	r.Sample(map[string]interface{}{"seed": r.Tape.Seed, "commands": len(r.Tape.Steps), "nodes": r.Cfg("nodes"),
